@@ -126,6 +126,30 @@ def _consume_with(fn, fobj, path):
         return ("other", type(e).__name__)
 
 
+_HANDLER_NAMES = {}
+
+
+def _named_in_handlers(modname):
+    """names of the exception classes mentioned in `except` clauses of the module's current source"""
+    if modname not in _HANDLER_NAMES:
+        import ast
+        import importlib
+        names = set()
+        try:
+            src = open(importlib.import_module(modname).__file__, encoding="utf-8").read()
+            for node in ast.walk(ast.parse(src)):
+                if isinstance(node, ast.ExceptHandler) and node.type is not None:
+                    for t in ast.walk(node.type):
+                        if isinstance(t, ast.Name):
+                            names.add(t.id)
+                        elif isinstance(t, ast.Attribute):
+                            names.add(t.attr)
+        except Exception:  # noqa
+            pass
+        _HANDLER_NAMES[modname] = names
+    return _HANDLER_NAMES[modname]
+
+
 def _fault_injection(ctx, fx):
     broken = []
     regs = corpus.registry()
@@ -138,7 +162,15 @@ def _fault_injection(ctx, fx):
         fn = corpus.extractor(m, f)
         name, data = _good_input_for(ft, fx)
         ks = [0, 1, 2, 3, 5, 8] if ctx.thorough else [0, 1, 3]
-        excs = fam_excs + (other_excs if ctx.thorough else ctx.rng.sample(other_excs, 8))
+        if ctx.thorough:
+            excs = fam_excs + other_excs
+        else:
+            # every exception class the extractor's CURRENT source names in an `except` clause is injected on every run
+            # (a handler that is wrong only for its own class must not depend on the seed); the others are sampled
+            named = _named_in_handlers(m)
+            must = [e for e in other_excs if type(e).__name__ in named]
+            rest = [e for e in other_excs if type(e).__name__ not in named]
+            excs = fam_excs + must + ctx.rng.sample(rest, min(len(rest), max(4, 8 - len(must))))
         for exc in excs:
             for k in ks:
                 kind, cls = _consume_with(fn, FaultIO(data, k, exc), "x." + ft)
